@@ -265,7 +265,7 @@ def make_recipe(ctx, k):
     rng = ctx.rng
     conv = G.CONVS[k % len(G.CONVS)]
     if conv == 'ugrid':
-        kw = {'max_w': 3, 'max_h': 2, 'coords_as': 'vars'}
+        kw = {'max_w': 3, 'max_h': 2, 'coords_as': 'vars', 'tables': G.tables_for(k // len(G.CONVS))}
     elif conv == 'cf1d':
         kw = {'max_n': 4, 'coords_as': rng.choice(['coords', 'vars']), 'bounds': rng.choice(['contig', 'gaps', 'none']),
               'bounds_as': rng.choice(['vars', 'coords'])}
